@@ -342,6 +342,11 @@ fn generic(name: &str, ctx: &mut Ctx<'_>) -> Option<Lies> {
         "rand128" => Felt252::from(ctx.rng.next_u128()),
         "copy_other" => {
             let n = ctx.honest.len();
+            if n < 2 {
+                // In a multi-fault plan the occurrence index may land on another hint than in the
+                // honest run (an earlier lie changed the control flow): no other output to copy.
+                return None;
+            }
             let j = (i + 1 + ctx.rng.below(n - 1)) % n;
             ctx.int(j)?
         }
@@ -800,6 +805,9 @@ impl<'a> FaultyProver<'a> {
     }
 }
 
+/// Lie constructions that panicked (counted in the evidence; such lies are not injected).
+pub static STRATEGY_PANICS: std::sync::atomic::AtomicU64 = std::sync::atomic::AtomicU64::new(0);
+
 fn builtin_segments(vm: &VirtualMachine) -> Vec<(isize, BuiltinName)> {
     vm.get_builtin_runners().iter().map(|b| (b.base() as isize, b.name())).collect()
 }
@@ -870,13 +878,23 @@ impl HintProcessorLogic for FaultyProver<'_> {
                 variant: fault.variant,
                 rng: Rng::new(simcore::mix(fault.salt, occ as u64)),
             };
-            let lies = if fault.strat == "alg" {
-                algebraic(&mut ctx)
-            } else if POINTER.contains(&fault.strat.as_str()) {
-                pointer(&fault.strat, &mut ctx)
-            } else {
-                generic(&fault.strat, &mut ctx)
-            };
+            // A panic in the simulator's own lie construction (an occurrence that is another hint
+            // than the plan was written for, after an earlier lie changed the control flow) means
+            // "this lie cannot be built here": nothing is injected. It must never reach the run-level
+            // handler, which would read it as a failure to decode the program's result.
+            let lies = std::panic::catch_unwind(std::panic::AssertUnwindSafe(|| {
+                if fault.strat == "alg" {
+                    algebraic(&mut ctx)
+                } else if POINTER.contains(&fault.strat.as_str()) {
+                    pointer(&fault.strat, &mut ctx)
+                } else {
+                    generic(&fault.strat, &mut ctx)
+                }
+            }))
+            .unwrap_or_else(|_| {
+                STRATEGY_PANICS.fetch_add(1, std::sync::atomic::Ordering::Relaxed);
+                None
+            });
             if let Some(lies) = lies {
                 let mut cells = vec![];
                 for (i, new) in lies {
